@@ -650,7 +650,7 @@ class Condition(ConditionLike):
                     if not result_i:
                         callable_false_i = True
 
-                except (TypeError, AttributeError):
+                except (TypeError, AttributeError, ZeroDivisionError, ValueError):
                     callable_error_i = True
 
             pre_processor_error.append(pre_processor_error_i)
